@@ -39,7 +39,7 @@ func (c *validatorListConstructor) buildList(node schema.Node) {
 		c.appendTypeValidators(names)
 
 		if constr := node.Constraint(constraint.NullableConstraintType); constr != nil {
-			c.list = append(c.list, newLiteralValidator(node, c.parent))
+			c.list = append(c.list, newNullValidator(node, c.parent))
 		}
 	} else {
 		c.appendNodeValidators(node)
